@@ -111,6 +111,23 @@ class NoOpMarshaller(AbstractMarshaller[T], tp.Generic[T]):
 BytesMarshaller = NoOpMarshaller[bytes]
 
 
+class NoneTypeMarshaller(AbstractMarshaller[None]):
+    """A marshaller for null values: anything else is rejected rather than passed through."""
+
+    def __call__(self, val: None) -> None:
+        """Marshal a null value.
+
+        Args:
+            val: The value to marshal.
+
+        Raises:
+            ValueError: If `val` is not `None`.
+        """
+        if val is not None:
+            raise ValueError(f"{val!r} is not of {type(None)!r}")
+        return None
+
+
 class CastMarshaller(AbstractMarshaller[T], tp.Generic[T]):
     """A marshaller that casts a value to a specific type."""
 
